@@ -2,6 +2,7 @@
   `optimize` maps raw metadata to the *canonical* normal form `nfc` (so that a second pass is the identity).
 -/
 import J2M.Proofs.OptimizeNF
+import J2M.Proofs.OptimizeIdem
 namespace J2M.C08P
 
 /-! ### sorted literal sets -/
@@ -117,5 +118,791 @@ theorem mkUM_lit_stable (c : LitCfg) (ts : List Ty) (o : Bool) (vs : List String
     rcases hm with h | h
     · exact absurd h hnotU
     · simp at h
+
+/-! ### what `nfc` adds to `nf` -/
+
+mutual
+/-- the part of `nfc` that is not in `nf` -/
+def nfx (cfg : GenCfg) : Ty → Bool
+  | .ser k => cfg.reg.types.contains k
+  | .lit _ vs => litStable cfg.lit vs
+  | .list t | .dict t => !t.isOptNull && nfx cfg t
+  | .opt t => nfx cfg t
+  | .union ts => canonOrder ts && nfxList cfg ts
+  | .tuple ts => nfxList cfg ts
+  | .obj fs => nodupStr (fs.map (·.1)) && nfxFields cfg fs
+  | _ => true
+def nfxList (cfg : GenCfg) : List Ty → Bool
+  | [] => true
+  | t :: ts => nfx cfg t && nfxList cfg ts
+def nfxFields (cfg : GenCfg) : List (String × Ty) → Bool
+  | [] => true
+  | (_, t) :: fs => nfx cfg t && nfxFields cfg fs
+end
+
+theorem nfxList_iff (cfg : GenCfg) (ts : List Ty) : nfxList cfg ts = true ↔ ∀ t ∈ ts, nfx cfg t = true := by
+  induction ts <;> simp_all [nfxList]
+
+theorem nfxFields_iff (cfg : GenCfg) (fs : List (String × Ty)) :
+    nfxFields cfg fs = true ↔ ∀ kv ∈ fs, nfx cfg kv.2 = true := by
+  induction fs with
+  | nil => simp [nfxFields]
+  | cons kv fs ih => obtain ⟨k, t⟩ := kv; simp_all [nfxFields]
+
+mutual
+theorem nfc_of_nf_nfx (cfg : GenCfg) : ∀ t, nf t = true → nfx cfg t = true → nfc cfg t = true
+  | .int, _, _ | .float, _, _ | .bool, _, _ | .str, _, _ | .null, _, _ | .unknown, _, _ | .ptr _, _, _ => by
+    simp [nfc]
+  | .ser k, _, h => by simpa [nfc, nfx] using h
+  | .lit ov vs, h1, h2 => by
+    simp only [nf, Bool.and_eq_true, Bool.not_eq_true'] at h1
+    simp only [nfx] at h2
+    simp [nfc, h1.1, h2]
+  | .list t, h1, h2 | .dict t, h1, h2 => by
+    simp only [nf] at h1
+    simp only [nfx, Bool.and_eq_true] at h2
+    simp only [nfc, Bool.and_eq_true]
+    exact ⟨h2.1, nfc_of_nf_nfx cfg t h1 h2.2⟩
+  | .opt t, h1, h2 => by
+    simp only [nf, Bool.and_eq_true] at h1
+    simp only [nfx] at h2
+    simp only [nfc, Bool.and_eq_true]
+    exact ⟨h1.1, nfc_of_nf_nfx cfg t h1.2 h2⟩
+  | .union ts, h1, h2 => by
+    simp only [nf, Bool.and_eq_true] at h1
+    simp only [nfx, Bool.and_eq_true] at h2
+    simp only [nfc, Bool.and_eq_true]
+    exact ⟨⟨h1.1, h2.1⟩, nfcList_of cfg ts h1.2 h2.2⟩
+  | .tuple ts, h1, h2 => by
+    simp only [nf] at h1
+    simp only [nfx] at h2
+    simp only [nfc]
+    exact nfcList_of cfg ts h1 h2
+  | .obj fs, h1, h2 => by
+    simp only [nf] at h1
+    simp only [nfx, Bool.and_eq_true] at h2
+    simp only [nfc, Bool.and_eq_true]
+    exact ⟨h2.1, nfcFields_of cfg fs h1 h2.2⟩
+theorem nfcList_of (cfg : GenCfg) : ∀ ts, nfList ts = true → nfxList cfg ts = true → nfcList cfg ts = true
+  | [], _, _ => by simp [nfcList]
+  | t :: ts, h1, h2 => by
+    simp only [nfList, Bool.and_eq_true] at h1
+    simp only [nfxList, Bool.and_eq_true] at h2
+    simp only [nfcList, Bool.and_eq_true]
+    exact ⟨nfc_of_nf_nfx cfg t h1.1 h2.1, nfcList_of cfg ts h1.2 h2.2⟩
+theorem nfcFields_of (cfg : GenCfg) : ∀ fs, nfFields fs = true → nfxFields cfg fs = true → nfcFields cfg fs = true
+  | [], _, _ => by simp [nfcFields]
+  | (_, t) :: fs, h1, h2 => by
+    simp only [nfFields, Bool.and_eq_true] at h1
+    simp only [nfxFields, Bool.and_eq_true] at h2
+    simp only [nfcFields, Bool.and_eq_true]
+    exact ⟨nfc_of_nf_nfx cfg t h1.1 h2.1, nfcFields_of cfg fs h1.2 h2.2⟩
+end
+
+/-! ### the extra input conditions -/
+
+mutual
+/-- extra conditions on raw metadata needed for the canonical form: non-overflowed literals are sorted and
+    duplicate-free (`litStable`; true for `StringLiteral({s})` and for every literal `DUnion` builds), and
+    inline objects have distinct keys (true for Python dicts) -/
+def rawK (cfg : GenCfg) : Ty → Bool
+  | .lit ov vs => ov || litStable cfg.lit vs
+  | .list t | .dict t | .opt t => rawK cfg t
+  | .union ts | .tuple ts => rawKList cfg ts
+  | .obj fs => nodupStr (fs.map (·.1)) && rawKFields cfg fs
+  | _ => true
+def rawKList (cfg : GenCfg) : List Ty → Bool
+  | [] => true
+  | t :: ts => rawK cfg t && rawKList cfg ts
+def rawKFields (cfg : GenCfg) : List (String × Ty) → Bool
+  | [] => true
+  | (_, t) :: fs => rawK cfg t && rawKFields cfg fs
+end
+
+theorem rawKList_iff (cfg : GenCfg) (ts : List Ty) : rawKList cfg ts = true ↔ ∀ t ∈ ts, rawK cfg t = true := by
+  induction ts <;> simp_all [rawKList]
+
+theorem rawKFields_iff (cfg : GenCfg) (fs : List (String × Ty)) :
+    rawKFields cfg fs = true ↔ ∀ kv ∈ fs, rawK cfg kv.2 = true := by
+  induction fs with
+  | nil => simp [rawKFields]
+  | cons kv fs ih => obtain ⟨k, t⟩ := kv; simp_all [rawKFields]
+
+theorem flatten_rawK {cfg : GenCfg} (ts : List Ty) (h : ∀ t ∈ ts, rawK cfg t = true) :
+    ∀ t ∈ flattenUnion ts, rawK cfg t = true := by
+  fun_induction flattenUnion ts with
+  | case1 => simp
+  | case2 us rest ih1 ih2 =>
+    intro t ht
+    rw [List.mem_append] at ht
+    rcases ht with ht | ht
+    · have : rawK cfg (.union us) = true := h _ (by simp)
+      simp only [rawK] at this
+      exact ih1 ((rawKList_iff cfg us).mp this) t ht
+    · exact ih2 (fun u hu => h u (by simp [hu])) t ht
+  | case3 rest u hne ih =>
+    intro t ht
+    rcases List.mem_cons.mp ht with rfl | ht
+    · exact h _ (by simp)
+    · exact ih (fun u hu => h u (by simp [hu])) t ht
+
+theorem mkUM_rawK {cfg : GenCfg} (ts : List Ty) (h : ∀ t ∈ ts, rawK cfg t = true) :
+    ∀ m ∈ mkUnionMembers cfg.lit ts, rawK cfg m = true := by
+  intro m hm
+  rcases mem_mkUM hm with ⟨h1, _⟩ | rfl | ⟨vs, rfl, _, _⟩
+  · exact flatten_rawK ts h m h1
+  · simp [rawK]
+  · simp only [rawK, Bool.false_or]
+    exact (mkUM_lit_stable cfg.lit ts false vs hm).2
+
+theorem collapse1_rawK {cfg : GenCfg} (ts : List Ty) (h : ∀ t ∈ ts, rawK cfg t = true) :
+    rawK cfg (collapse1 (mkUnionMembers cfg.lit ts)) = true := by
+  have hm := mkUM_rawK ts h
+  generalize mkUnionMembers cfg.lit ts = us at hm
+  unfold collapse1
+  split
+  · exact hm _ (by simp)
+  · simp only [rawK]; exact (rawKList_iff cfg us).mpr hm
+
+theorem mkUnion_rawK {cfg : GenCfg} (ts : List Ty) (h : ∀ t ∈ ts, rawK cfg t = true) :
+    rawK cfg (mkUnion cfg.lit ts) = true := by
+  simp only [mkUnion, rawK]; exact (rawKList_iff cfg _).mpr (mkUM_rawK ts h)
+
+theorem unionMembers_rawK {cfg : GenCfg} {t : Ty} (h : rawK cfg t = true) :
+    ∀ u ∈ t.unionMembers, rawK cfg u = true := by
+  cases t with
+  | union ts => simp only [rawK] at h; exact (rawKList_iff cfg ts).mp h
+  | _ => simpa [Ty.unionMembers] using h
+
+theorem merged_rawK {cfg : GenCfg} {a b : Ty} (ha : rawK cfg a = true) (hb : rawK cfg b = true) :
+    rawK cfg (collapse1 (mkUnionMembers cfg.lit (a.unionMembers ++ b.unionMembers))) = true := by
+  apply collapse1_rawK
+  intro t ht
+  rcases List.mem_append.mp ht with h | h
+  · exact unionMembers_rawK ha t h
+  · exact unionMembers_rawK hb t h
+
+/-! keys -/
+
+theorem Fields.keys_set (fs : Fields) (k : String) (v : Ty) :
+    (Fields.set fs k v).keys = if k ∈ fs.keys then fs.keys else fs.keys ++ [k] := by
+  induction fs with
+  | nil => simp [Fields.set, Fields.keys]
+  | cons kv fs ih =>
+    obtain ⟨k', v'⟩ := kv
+    simp only [Fields.set]
+    by_cases hk : k' = k
+    · subst hk; simp [Fields.keys]
+    · have : (k' == k) = false := by simpa using hk
+      simp only [this, Bool.false_eq_true, ↓reduceIte]
+      simp only [Fields.keys, List.map_cons] at ih ⊢
+      rw [ih]
+      have hk' : ¬ k = k' := fun e => hk e.symm
+      by_cases hm : k ∈ fs.map (·.1) <;> simp [hm, hk']
+
+theorem Fields.nodup_set {fs : Fields} (h : fs.keys.Nodup) (k : String) (v : Ty) :
+    (Fields.set fs k v).keys.Nodup := by
+  rw [Fields.keys_set]
+  split
+  · exact h
+  · rename_i hk
+    rw [List.nodup_append]
+    refine ⟨h, by simp, ?_⟩
+    intro a ha b hb; simp at hb; subst hb
+    intro e; subst e; exact hk ha
+
+/-- keys distinct and values `rawK` -/
+def AllRawK (cfg : GenCfg) (fs : Fields) : Prop := fs.keys.Nodup ∧ ∀ kv ∈ fs, rawK cfg kv.2 = true
+
+theorem AllRawK.set {cfg : GenCfg} {fs : Fields} (h : AllRawK cfg fs) (k : String) {v : Ty}
+    (hv : rawK cfg v = true) : AllRawK cfg (Fields.set fs k v) := by
+  refine ⟨Fields.nodup_set h.1 k v, ?_⟩
+  intro kv hkv
+  rcases Fields.mem_set hkv with h' | rfl
+  · exact h.2 kv h'
+  · exact hv
+
+theorem mergeOne_rawK {cfg : GenCfg} {e : EqEnv} {first : Bool} {fields fields' : Fields} {name : String}
+    {field : Ty} (hf : AllRawK cfg fields) (hd : rawK cfg field = true)
+    (h : mergeOne cfg.lit e first fields name field = .ok fields') : AllRawK cfg fields' := by
+  unfold mergeOne at h
+  split at h
+  · simp only [pure, Except.pure, Except.ok.injEq] at h
+    subst h
+    apply hf.set
+    split
+    · exact hd
+    · simpa [rawK] using hd
+  · rename_i orig hget
+    obtain ⟨k', hmem⟩ := Fields.get?_mem hget
+    have horig : rawK cfg orig = true := hf.2 _ hmem
+    split at h
+    · rename_i origInner
+      have hin : rawK cfg origInner = true := by simpa [rawK] using horig
+      simp only [bind, Except.bind] at h
+      split at h
+      · cases h
+      · split at h
+        · cases h
+        · split at h
+          · simp only [pure, Except.pure, Except.ok.injEq] at h; subst h; exact hf
+          · simp only [pure, Except.pure, Except.ok.injEq] at h; subst h
+            apply hf.set
+            simp only [rawK]
+            exact merged_rawK hd hin
+    · simp only [bind, Except.bind] at h
+      split at h
+      · cases h
+      · split at h
+        · cases h
+        · split at h
+          · simp only [pure, Except.pure, Except.ok.injEq] at h; subst h; exact hf
+          · simp only [pure, Except.pure, Except.ok.injEq] at h; subst h
+            apply hf.set
+            exact merged_rawK hd horig
+
+theorem foldlM_mergeOne_rawK {cfg : GenCfg} {e : EqEnv} {first : Bool} (model : Fields)
+    (hmodel : ∀ kv ∈ model, rawK cfg kv.2 = true) :
+    ∀ (fields fields' : Fields), AllRawK cfg fields →
+      model.foldlM (fun fs (kv : String × Ty) => mergeOne cfg.lit e first fs kv.1 kv.2) fields = .ok fields' →
+      AllRawK cfg fields' := by
+  induction model with
+  | nil =>
+    intro fields fields' hf h
+    simp only [List.foldlM_nil, pure, Except.pure, Except.ok.injEq] at h
+    subst h; exact hf
+  | cons kv model ih =>
+    intro fields fields' hf h
+    rw [List.foldlM_cons] at h
+    simp only [bind, Except.bind] at h
+    split at h
+    · cases h
+    · rename_i f1 h1
+      exact ih (fun kv' h' => hmodel kv' (by simp [h'])) f1 fields'
+        (mergeOne_rawK hf (hmodel kv (by simp)) h1) h
+
+theorem keys_map_eq (f1 : Fields) (g : String × Ty → String × Ty) (hg : ∀ kv, (g kv).1 = kv.1) :
+    Fields.keys (f1.map g) = Fields.keys f1 := by
+  simp only [Fields.keys, List.map_map]
+  apply List.map_congr_left
+  intro kv _; exact hg kv
+
+theorem mergeStep_rawK {cfg : GenCfg} {e : EqEnv} {first : Bool} {fields fields' model : Fields}
+    (hf : AllRawK cfg fields) (hmodel : ∀ kv ∈ model, rawK cfg kv.2 = true)
+    (h : mergeStep cfg.lit e first fields model = .ok fields') : AllRawK cfg fields' := by
+  unfold mergeStep at h
+  simp only [bind, Except.bind] at h
+  split at h
+  · cases h
+  · rename_i f1 h1
+    have hf1 := foldlM_mergeOne_rawK model hmodel fields f1 hf h1
+    simp only [pure, Except.pure, Except.ok.injEq] at h
+    subst h
+    constructor
+    · show (Fields.keys (f1.map _)).Nodup
+      rw [keys_map_eq]
+      · exact hf1.1
+      · intro kv; split <;> rfl
+    · intro kv hkv
+      simp only [List.mem_map] at hkv
+      obtain ⟨kv0, hkv0, rfl⟩ := hkv
+      split
+      · simpa [rawK] using hf1.2 kv0 hkv0
+      · exact hf1.2 kv0 hkv0
+
+theorem mergeGo_rawK {cfg : GenCfg} {e : EqEnv} (sets : List Fields)
+    (hsets : ∀ m ∈ sets, ∀ kv ∈ m, rawK cfg kv.2 = true) :
+    ∀ (first : Bool) (fields fields' : Fields), AllRawK cfg fields →
+      mergeFieldSets.go cfg.lit e first fields sets = .ok fields' → AllRawK cfg fields' := by
+  induction sets with
+  | nil =>
+    intro first fields fields' hf h
+    simp only [mergeFieldSets.go, pure, Except.pure, Except.ok.injEq] at h
+    subst h; exact hf
+  | cons m ms ih =>
+    intro first fields fields' hf h
+    simp only [mergeFieldSets.go, bind, Except.bind] at h
+    split at h
+    · cases h
+    · rename_i f1 h1
+      exact ih (fun m' hm' => hsets m' (by simp [hm'])) false f1 fields'
+        (mergeStep_rawK hf (hsets m (by simp)) h1) h
+
+theorem mergeFieldSets_rawK {cfg : GenCfg} {e : EqEnv} {sets : List Fields} {fields' : Fields}
+    (hsets : ∀ m ∈ sets, ∀ kv ∈ m, rawK cfg kv.2 = true)
+    (h : mergeFieldSets cfg.lit e sets = .ok fields') : AllRawK cfg fields' :=
+  mergeGo_rawK sets hsets true [] fields' ⟨by simp [Fields.keys], fun _ h => by cases h⟩ h
+
+theorem AllRawK.rawK {cfg : GenCfg} {fs : Fields} (h : AllRawK cfg fs) : rawK cfg (.obj fs) = true := by
+  simp only [C08P.rawK, Bool.and_eq_true]
+  exact ⟨(nodupStr_iff _).mpr h.1, (rawKFields_iff cfg fs).mpr h.2⟩
+
+/-! ### canonical order as a pairwise relation -/
+
+def RC (a b : Ty) : Prop := a.cls < b.cls ∨ (a.cls = 0 ∧ b.cls = 0)
+
+theorem canonOrder_iff (l : List Ty) : canonOrder l = true ↔ l.Pairwise RC := by
+  induction l with
+  | nil => simp [canonOrder]
+  | cons t ts ih =>
+    simp only [canonOrder, Bool.and_eq_true, List.all_eq_true, Bool.or_eq_true, decide_eq_true_eq,
+      beq_iff_eq, List.pairwise_cons, ih, RC]
+
+theorem pairwise_of_all {α} (R : α → α → Prop) (P : α → Prop) (l : List α) (hP : ∀ a ∈ l, P a)
+    (hR : ∀ a b, P a → P b → R a b) : l.Pairwise R := by
+  induction l with
+  | nil => exact List.Pairwise.nil
+  | cons x l ih =>
+    rw [List.pairwise_cons]
+    exact ⟨fun b hb => hR x b (hP x (by simp)) (hP b (by simp [hb])),
+      ih (fun a ha => hP a (by simp [ha]))⟩
+
+theorem pairwise_short {α} (R : α → α → Prop) (l : List α) (h : l.length ≤ 1) : l.Pairwise R := by
+  match l, h with
+  | [], _ => exact List.Pairwise.nil
+  | [a], _ => simp
+
+theorem cls_of_kind (t : Ty) :
+    (t.kindN = 13 → t.cls = 1) ∧ (t.kindN = 8 → t.cls = 2) ∧ (t.kindN = 9 → t.cls = 3) ∧
+    (t.kindN = 3 ∨ t.kindN = 6 → t.cls = 4) ∧ (t.kindN = 7 → t.cls = 5) ∧
+    (t.kindN = 0 ∨ t.kindN = 1 ∨ t.kindN = 2 ∨ t.kindN = 4 ∨ t.kindN = 5 → t.cls = 0) := by
+  cases t <;> simp [Ty.kindN, Ty.cls]
+
+theorem cls_nonlit (t : Ty) (h : t.isLit = false) : t.cls < 5 := by
+  cases t <;> simp_all [Ty.cls, Ty.isLit]
+
+theorem pairwise_assemble (A B C D E : List Ty) (hA : ∀ a ∈ A, a.cls = 0)
+    (hB : B.length ≤ 1 ∧ ∀ a ∈ B, a.cls = 1) (hC : C.length ≤ 1 ∧ ∀ a ∈ C, a.cls = 2)
+    (hD : D.length ≤ 1 ∧ ∀ a ∈ D, a.cls = 3) (hE : E.length ≤ 1 ∧ ∀ a ∈ E, a.cls = 4) :
+    (A ++ B ++ C ++ D ++ E).Pairwise RC := by
+  have pA : A.Pairwise RC := pairwise_of_all RC (fun a => a.cls = 0) A hA (fun a b ha hb => Or.inr ⟨ha, hb⟩)
+  have clsAB : ∀ a ∈ A ++ B, a.cls ≤ 1 := by
+    intro a ha; rcases List.mem_append.mp ha with h | h
+    · rw [hA a h]; omega
+    · rw [hB.2 a h]; omega
+  have clsABC : ∀ a ∈ A ++ B ++ C, a.cls ≤ 2 := by
+    intro a ha; rcases List.mem_append.mp ha with h | h
+    · have := clsAB a h; omega
+    · rw [hC.2 a h]; omega
+  have clsABCD : ∀ a ∈ A ++ B ++ C ++ D, a.cls ≤ 3 := by
+    intro a ha; rcases List.mem_append.mp ha with h | h
+    · have := clsABC a h; omega
+    · rw [hD.2 a h]; omega
+  have pAB : (A ++ B).Pairwise RC := by
+    rw [List.pairwise_append]
+    refine ⟨pA, pairwise_short RC B hB.1, ?_⟩
+    intro a ha b hb; left; rw [hA a ha, hB.2 b hb]; omega
+  have pABC : (A ++ B ++ C).Pairwise RC := by
+    rw [List.pairwise_append]
+    refine ⟨pAB, pairwise_short RC C hC.1, ?_⟩
+    intro a ha b hb; left; have := clsAB a ha; rw [hC.2 b hb]; omega
+  have pABCD : (A ++ B ++ C ++ D).Pairwise RC := by
+    rw [List.pairwise_append]
+    refine ⟨pABC, pairwise_short RC D hD.1, ?_⟩
+    intro a ha b hb; left; have := clsABC a ha; rw [hD.2 b hb]; omega
+  rw [List.pairwise_append]
+  refine ⟨pABCD, pairwise_short RC E hE.1, ?_⟩
+  intro a ha b hb; left; have := clsABCD a ha; rw [hE.2 b hb]; omega
+
+/-! ### every non-literal input's hash is recorded -/
+
+theorem handleType_hashes_mono (st : UState) (t : Ty) (h : String) (hh : h ∈ st.hashes) :
+    h ∈ (handleType st t).hashes := by
+  rcases handleType_step st t with ⟨_, h2, _⟩ | ⟨_, _, _, h2⟩ <;> rw [h2]
+  · exact hh
+  · exact List.mem_cons_of_mem _ hh
+
+theorem handleType_hash_in (st : UState) (t : Ty) (hl : t.isLit = false) :
+    hashStr t ∈ (handleType st t).hashes := by
+  rcases handleType_step st t with ⟨_, h2, h3⟩ | ⟨_, _, _, h2⟩ <;> rw [h2]
+  · exact h3 hl
+  · simp
+
+theorem fold_hashes_mono (ts : List Ty) (st : UState) (h : String) (hh : h ∈ st.hashes) :
+    h ∈ (ts.foldl handleType st).hashes := by
+  induction ts generalizing st with
+  | nil => exact hh
+  | cons t ts ih => exact ih _ (handleType_hashes_mono st t h hh)
+
+theorem fold_hashes_complete (ts : List Ty) (st : UState) (t : Ty) (ht : t ∈ ts) (hl : t.isLit = false) :
+    hashStr t ∈ (ts.foldl handleType st).hashes := by
+  induction ts generalizing st with
+  | nil => cases ht
+  | cons u ts ih =>
+    rw [List.foldl_cons]
+    rcases List.mem_cons.mp ht with rfl | ht
+    · exact fold_hashes_mono ts _ _ (handleType_hash_in st t hl)
+    · exact ih _ ht
+
+/-! ### the final `DUnion` yields a canonical member list -/
+
+theorem union_nfx {cfg : GenCfg} {tys : List Ty} (ok : TysOK cfg.lit tys)
+    (hnu : ∀ t ∈ tys, t.isNull = false ∧ t.isUnknown = false)
+    (hx : ∀ t ∈ tys, nfx cfg t = true)
+    (hord : (tys.filter (fun t => !t.isLit)).Pairwise RC) :
+    nfx cfg (collapse (mkUnionMembers cfg.lit tys)) = true ∧
+      (collapse (mkUnionMembers cfg.lit tys)).isNull = false := by
+  have hfl := flattenUnion_of_flat tys ok.flat
+  have inv := foldSt_inv tys
+  have hst : foldSt tys = tys.foldl handleType ⟨[], [], true, []⟩ := by unfold foldSt; rw [hfl]
+  -- members
+  have hmem : ∀ m ∈ mkUnionMembers cfg.lit tys, nfx cfg m = true ∧ m.isNull = false := by
+    intro m hm
+    rcases mem_mkUM hm with ⟨h1, _⟩ | rfl | ⟨vs, rfl, _, _⟩
+    · rw [hfl] at h1; exact ⟨hx m h1, (hnu m h1).1⟩
+    · simp [nfx, Ty.isNull]
+    · exact ⟨by simpa [nfx] using (mkUM_lit_stable cfg.lit tys false vs hm).2, rfl⟩
+  -- order
+  have hsub := fold_unique_sublist ⟨[], [], true, []⟩ tys
+  rw [← hst] at hsub
+  simp only [List.reverse_nil, List.nil_append] at hsub
+  have pU : ((foldSt tys).unique.reverse).Pairwise RC := hord.sublist hsub
+  have hord' : (mkUnionMembers cfg.lit tys).Pairwise RC := by
+    rw [mkUnionMembers_eq]
+    rcases finishU_cases cfg.lit (foldSt tys) with ⟨_, _, _, heq⟩ | ⟨heq, _⟩ | ⟨heq, hns, _⟩
+    · rw [heq, List.pairwise_append]
+      refine ⟨pU, by simp, ?_⟩
+      intro a ha b hb
+      simp at hb; subst hb
+      left
+      have := cls_nonlit a (inv.noLit a (by simpa using ha))
+      simpa [Ty.cls] using this
+    · rw [heq]; exact pU
+    · -- `str` is never added here
+      exfalso
+      have hnostr : ∀ t ∈ tys, t.isStr = false := by
+        intro t ht
+        cases hs : t.isStr with
+        | false => rfl
+        | true =>
+          exfalso
+          cases t <;> simp [Ty.isStr] at hs
+          apply hns
+          rw [hst]
+          exact fold_hashes_complete tys _ _ ht rfl
+      have hno := mkUM_no_new_str cfg.lit tys ok.flat
+        (fun t ht => ⟨hnostr t ht, fun o vs e => ok.goodLit o vs (e ▸ ht)⟩) ok.oneLit
+      apply hno
+      rw [mkUnionMembers_eq, heq]; simp
+  generalize hM : mkUnionMembers cfg.lit tys = M at *
+  match M, hM with
+  | [], _ => simp [collapse, nfx, Ty.isNull]
+  | [x], _ => exact hmem x (by simp)
+  | a :: b :: rest, hM =>
+    refine ⟨?_, rfl⟩
+    show nfx cfg (.union (a :: b :: rest)) = true
+    simp only [nfx, Bool.and_eq_true]
+    exact ⟨(canonOrder_iff _).mpr hord', (nfxList_iff cfg _).mpr (fun t ht => (hmem t ht).1)⟩
+
+/-! ### `resolve` only returns given kinds -/
+
+theorem dedup_fold_subset (l acc : List String) :
+    ∀ k ∈ l.foldl (fun acc x => if acc.contains x then acc else acc ++ [x]) acc, k ∈ acc ∨ k ∈ l := by
+  induction l generalizing acc with
+  | nil => intro k hk; exact Or.inl hk
+  | cons x l ih =>
+    intro k hk
+    rw [List.foldl_cons] at hk
+    rcases ih _ k hk with h | h
+    · split at h
+      · exact Or.inl h
+      · rcases List.mem_append.mp h with h | h
+        · exact Or.inl h
+        · simp at h; subst h; exact Or.inr (by simp)
+    · exact Or.inr (by simp [h])
+
+theorem dedupStr_subset (l : List String) : ∀ k ∈ dedupStr l, k ∈ l := by
+  intro k hk
+  rcases dedup_fold_subset l [] k hk with h | h
+  · cases h
+  · exact h
+
+theorem resolve_subset (reg : StrRegistry) : ∀ (fuel : Nat) (ts r : List String),
+    resolve reg ts fuel = .ok r → ∀ k ∈ r, k ∈ ts := by
+  intro fuel
+  induction fuel with
+  | zero => intro ts r h; simp [resolve] at h
+  | succ n ih =>
+    intro ts r h k hk
+    simp only [resolve] at h
+    split at h
+    · cases h; exact dedupStr_subset ts k hk
+    · have := ih _ r h k hk
+      exact dedupStr_subset ts k (List.mem_filter.mp this).1
+
+theorem stageStr_inv_reg {reg : StrRegistry} {X o : List Ty} {S : List Ty}
+    (hS : ∀ k, Ty.ser k ∈ S → reg.types.contains k = true) (h : stageStr reg X S = .ok o) :
+    o = X ∨ o = X ++ [.str] ∨ ∃ k, o = X ++ [.ser k] ∧ reg.types.contains k = true := by
+  unfold stageStr at h
+  split at h
+  · simp only [pure, Except.pure, Except.ok.injEq] at h; exact Or.inr (Or.inl h.symm)
+  · split at h
+    · simp only [pure, Except.pure, Except.ok.injEq] at h; exact Or.inl h.symm
+    · simp only [bind, Except.bind] at h
+      split at h
+      · cases h
+      · rename_i r hr
+        split at h
+        · rename_i k
+          simp only [pure, Except.pure, Except.ok.injEq] at h
+          refine Or.inr (Or.inr ⟨k, h.symm, ?_⟩)
+          have := resolve_subset reg _ _ _ hr k (by simp)
+          rw [List.mem_filterMap] at this
+          obtain ⟨t, ht, hk⟩ := this
+          cases t <;> simp at hk
+          subst hk
+          exact hS _ ht
+        · cases h
+        · simp only [pure, Except.pure, Except.ok.injEq] at h; exact Or.inr (Or.inl h.symm)
+
+/-! ### shape of `_optimize_union` -/
+
+/-- the shape of a successful `_optimize_union` run on a raw union -/
+theorem union_shape {cfg : GenCfg} {e : EqEnv} {f : Nat} {ms : List Ty} {t' : Ty}
+    (hr : rawD cfg (.union ms) = true) (h : optimizeUnion cfg e (f + 1) ms = .ok t') :
+    ∃ O Tj Tl Td Ts,
+      OPre cfg.lit O ∧ (∀ t ∈ O, t ∈ ms) ∧
+      Tj.length ≤ 1 ∧ (∀ b ∈ Tj, ∃ m, AllRawF cfg m ∧ ((∀ t ∈ ms, rawK cfg t = true) → AllRawK cfg m) ∧
+        optimize cfg e f (.obj m) = .ok b) ∧
+      Tl.length ≤ 1 ∧ (∀ b ∈ Tl, ∃ u, rawD cfg u = true ∧ ((∀ t ∈ ms, rawK cfg t = true) → rawK cfg u = true) ∧
+        optimize cfg e f (.list u) = .ok b) ∧
+      Td.length ≤ 1 ∧ (∀ b ∈ Td, ∃ u, rawD cfg u = true ∧ ((∀ t ∈ ms, rawK cfg t = true) → rawK cfg u = true) ∧
+        optimize cfg e f (.dict u) = .ok b) ∧
+      Ts.length ≤ 1 ∧ (∀ b ∈ Ts, b = .str ∨ ∃ k, b = .ser k ∧ cfg.reg.types.contains k = true) ∧
+      finishOpt cfg.lit (O ++ Tj ++ Tl ++ Td ++ Ts) = .ok t' := by
+  obtain ⟨sh, hm⟩ := rawD_union hr
+  have hreg : ∀ t ∈ ms, ∀ k, t = .ser k → cfg.reg.types.contains k = true := by
+    intro t ht k hk
+    have := hm t ht; rw [hk] at this; simpa [rawD] using this
+  rw [optimizeUnion_body, split_optFree cfg.reg ms {} (fun t ht => ⟨rawD_not_opt (hm t ht), hreg t ht⟩)] at h
+  unfold unionBody at h
+  simp only [List.nil_append, bind, Except.bind] at h
+  split at h
+  · cases h
+  · rename_i o1 hmerge
+    split at h
+    · cases h
+    · rename_i o4 hstr
+      split at h
+      · cases h
+      · rename_i types hmap
+        rw [stageList_eq, stageDict_eq] at hstr
+        obtain ⟨Jx, ho1, hJx⟩ : ∃ Jx, o1 = stageInt (ms.filter isOtherCls) ++ Jx ∧
+            (Jx = [] ∨ ∃ m, Jx = [.obj m] ∧ AllRawF cfg m ∧
+              ((∀ t ∈ ms, rawK cfg t = true) → AllRawK cfg m)) := by
+          rcases stageMerge_inv hmerge with ⟨_, h1⟩ | ⟨m, hm', h1⟩
+          · exact ⟨[], by simpa using h1, Or.inl rfl⟩
+          · refine ⟨[.obj m], h1, Or.inr ⟨m, rfl, ?_, ?_⟩⟩
+            · apply mergeFieldSets_rawF _ hm'
+              intro fs hfs kv hkv
+              have := hm _ (mem_objFs hfs)
+              simp only [rawD] at this
+              exact (rawDFields_iff cfg fs).mp this kv hkv
+            · intro hk
+              apply mergeFieldSets_rawK _ hm'
+              intro fs hfs kv hkv
+              have := hk _ (mem_objFs hfs)
+              simp only [rawK, Bool.and_eq_true] at this
+              exact (rawKFields_iff cfg fs).mp this.2 kv hkv
+        obtain ⟨Sx, ho4, hSx⟩ : ∃ Sx, o4 = o1 ++ (if (listEs ms).isEmpty then [] else [.list (mkUnion cfg.lit (listEs ms))])
+            ++ (if (dictEs ms).isEmpty then [] else [.dict (mkUnion cfg.lit (dictEs ms))]) ++ Sx ∧
+            (Sx = [] ∨ Sx = [.str] ∨ ∃ k, Sx = [.ser k] ∧ cfg.reg.types.contains k = true) := by
+          have hS : ∀ k, Ty.ser k ∈ ms.filter isStrCls → cfg.reg.types.contains k = true :=
+            fun k hk => hreg _ (List.mem_filter.mp hk).1 k rfl
+          rcases stageStr_inv_reg hS hstr with h1 | h1 | ⟨k, h1, hk⟩
+          · exact ⟨[], by simpa using h1, Or.inl rfl⟩
+          · exact ⟨[.str], h1, Or.inr (Or.inl rfl)⟩
+          · exact ⟨[.ser k], h1, Or.inr (Or.inr ⟨k, rfl, hk⟩)⟩
+        subst ho1
+        generalize hLx : (if (listEs ms).isEmpty then [] else [Ty.list (mkUnion cfg.lit (listEs ms))]) = Lx at ho4
+        generalize hDx : (if (dictEs ms).isEmpty then [] else [Ty.dict (mkUnion cfg.lit (dictEs ms))]) = Dx at ho4
+        subst ho4
+        obtain ⟨T4, Ts, hT4, hTs, rfl⟩ := mapM_append_inv _ _ _ _ hmap
+        obtain ⟨T3, Td, hT3, hTd, rfl⟩ := mapM_append_inv _ _ _ _ hT4
+        obtain ⟨T2, Tl, hT2, hTl, rfl⟩ := mapM_append_inv _ _ _ _ hT3
+        obtain ⟨To, Tj, hTo, hTj, rfl⟩ := mapM_append_inv _ _ _ _ hT2
+        obtain ⟨hOPre, hOopt⟩ := oPre_of_raw sh hm
+        cases f with
+        | zero =>
+          exfalso
+          have hnil : ∀ (X T : List Ty), X.mapM (optimize cfg e 0) = .ok T → T = [] := by
+            intro X T hX
+            cases T with
+            | nil => rfl
+            | cons y T =>
+              obtain ⟨x, _, hx⟩ := mapM_mem_inv _ _ _ hX y (by simp)
+              simp [optimize] at hx
+          rw [hnil _ _ hTo, hnil _ _ hTj, hnil _ _ hTl, hnil _ _ hTd, hnil _ _ hTs] at h
+          simp [finishOpt] at h
+        | succ f' =>
+          have hTo' : To = stageInt (ms.filter isOtherCls) := by
+            have := mapM_ok_id (optimize cfg e (f' + 1)) _ (fun t ht => hOopt t ht e f')
+            rw [this] at hTo; cases hTo; rfl
+          subst hTo'
+          refine ⟨_, Tj, Tl, Td, Ts, hOPre, ?_, ?_, ?_, ?_, ?_, ?_, ?_, ?_, ?_, h⟩
+          · intro t ht
+            exact (List.mem_filter.mp ((stageInt_sublist _).subset ht)).1
+          · rw [mapM_length _ _ _ hTj]
+            rcases hJx with rfl | ⟨m, rfl, _⟩ <;> simp
+          · intro b hb
+            obtain ⟨x, hx, hxb⟩ := mapM_mem_inv _ _ _ hTj b hb
+            rcases hJx with rfl | ⟨m, rfl, hmr, hmk⟩
+            · cases hx
+            · simp at hx; subst hx; exact ⟨m, hmr, hmk, hxb⟩
+          · rw [mapM_length _ _ _ hTl, ← hLx]; split <;> simp
+          · intro b hb
+            obtain ⟨x, hx, hxb⟩ := mapM_mem_inv _ _ _ hTl b hb
+            rw [← hLx] at hx
+            split at hx
+            · cases hx
+            · rename_i hne
+              simp at hx; subst hx
+              refine ⟨_, ?_, ?_, hxb⟩
+              · apply mkUnion_rawD
+                · simpa using hne
+                · intro t ht
+                  have := hm _ (mem_listEs ht)
+                  simpa [rawD] using this
+              · intro hk
+                apply mkUnion_rawK
+                intro t ht
+                have := hk _ (mem_listEs ht)
+                simpa [rawK] using this
+          · rw [mapM_length _ _ _ hTd, ← hDx]; split <;> simp
+          · intro b hb
+            obtain ⟨x, hx, hxb⟩ := mapM_mem_inv _ _ _ hTd b hb
+            rw [← hDx] at hx
+            split at hx
+            · cases hx
+            · rename_i hne
+              simp at hx; subst hx
+              refine ⟨_, ?_, ?_, hxb⟩
+              · apply mkUnion_rawD
+                · simpa using hne
+                · intro t ht
+                  have := hm _ (mem_dictEs ht)
+                  simpa [rawD] using this
+              · intro hk
+                apply mkUnion_rawK
+                intro t ht
+                have := hk _ (mem_dictEs ht)
+                simpa [rawK] using this
+          · rw [mapM_length _ _ _ hTs]
+            rcases hSx with rfl | rfl | ⟨k, rfl, _⟩ <;> simp
+          · intro b hb
+            obtain ⟨x, hx, hxb⟩ := mapM_mem_inv _ _ _ hTs b hb
+            rcases hSx with rfl | rfl | ⟨k, rfl, hk⟩
+            · cases hx
+            · simp at hx; subst hx
+              simp [optimize, pure, Except.pure] at hxb; exact Or.inl hxb.symm
+            · simp at hx; subst hx
+              simp [optimize, pure, Except.pure] at hxb; exact Or.inr ⟨k, hxb.symm, hk⟩
+
+theorem nfx_leaf {cfg : GenCfg} {t : Ty}
+    (hk : t.kindN = 0 ∨ t.kindN = 1 ∨ t.kindN = 2 ∨ t.kindN = 4 ∨ t.kindN = 5 ∨ t.kindN = 7)
+    (hr : rawK cfg t = true) (hl : ∀ o vs, t = .lit o vs → o = false) : nfx cfg t = true := by
+  cases t with
+  | lit o vs =>
+    have := hl o vs rfl; subst this
+    simpa [rawK, nfx] using hr
+  | int | float | bool | null | unknown => simp [nfx]
+  | _ => simp [Ty.kindN] at hk
+
+theorem isOptNull_kind (t : Ty) (h : t.isOptNull = true) : t.kindN = 10 := by
+  cases t <;> simp [Ty.isOptNull] at h ⊢
+  all_goals rfl
+
+theorem isOptNull_opt (x : Ty) (h : x.isNull = false) : (Ty.opt x).isOptNull = false := by
+  cases x <;> simp [Ty.isOptNull, Ty.isNull] at h ⊢
+
+theorem types_kind {c : LitCfg} {O Tj Tl Td Ts : List Ty} (hO : OPre c O)
+    (hj : Seg 13 13 Tj) (hl : Seg 8 8 Tl) (hd : Seg 9 9 Td) (hs : Seg 3 6 Ts) :
+    ∀ t ∈ O ++ Tj ++ Tl ++ Td ++ Ts, t.kindN ≠ 10 := by
+  intro t ht
+  simp only [List.mem_append] at ht
+  rcases ht with (((h | h) | h) | h) | h
+  · have := hO.kind t h; omega
+  · have := hj.kind t h; omega
+  · have := hl.kind t h; omega
+  · have := hd.kind t h; omega
+  · have := hs.kind t h; omega
+
+theorem types_order {c : LitCfg} {O Tj Tl Td Ts : List Ty} (hO : OPre c O)
+    (hj : Seg 13 13 Tj) (hl : Seg 8 8 Tl) (hd : Seg 9 9 Td) (hs : Seg 3 6 Ts) :
+    ((O ++ Tj ++ Tl ++ Td ++ Ts).filter (fun t => !t.isLit)).Pairwise RC := by
+  have hsub : ((O ++ Tj ++ Tl ++ Td ++ Ts).filter (fun t => !t.isLit)).Sublist
+      (O.filter (fun t => !t.isLit) ++ Tj ++ Tl ++ Td ++ Ts) := by
+    simp only [List.filter_append]
+    exact ((((List.Sublist.refl _).append List.filter_sublist).append List.filter_sublist).append
+      List.filter_sublist).append List.filter_sublist
+  refine List.Pairwise.sublist hsub ?_
+  apply pairwise_assemble
+  · intro a ha
+    rw [List.mem_filter] at ha
+    have hk := hO.kind a ha.1
+    have hnl : a.kindN ≠ 7 := by
+      have := ha.2; rw [isLit_kind] at this; simpa using this
+    exact (cls_of_kind a).2.2.2.2.2 (by omega)
+  · exact ⟨hj.len, fun a ha => (cls_of_kind a).1 (by have := hj.kind a ha; omega)⟩
+  · exact ⟨hl.len, fun a ha => (cls_of_kind a).2.1 (by have := hl.kind a ha; omega)⟩
+  · exact ⟨hd.len, fun a ha => (cls_of_kind a).2.2.1 (by have := hd.kind a ha; omega)⟩
+  · exact ⟨hs.len, fun a ha => (cls_of_kind a).2.2.2.1 (hs.kind a ha)⟩
+
+/-- the tail of `_optimize_union`, canonical version -/
+theorem finish_nfx {cfg : GenCfg} {O Tj Tl Td Ts : List Ty} {t' : Ty} (hO : OPre cfg.lit O)
+    (hj : Seg 13 13 Tj) (hl : Seg 8 8 Tl) (hd : Seg 9 9 Td) (hs : Seg 3 6 Ts)
+    (hx : ∀ t ∈ O ++ Tj ++ Tl ++ Td ++ Ts, nfx cfg t = true)
+    (h : finishOpt cfg.lit (O ++ Tj ++ Tl ++ Td ++ Ts) = .ok t') :
+    nfx cfg t' = true ∧ t'.isOptNull = false := by
+  have ok := tysOK_assemble hO hj hl hd hs
+  have hkind := types_kind hO hj hl hd hs
+  have hordT := types_order hO hj hl hd hs
+  generalize htys : O ++ Tj ++ Tl ++ Td ++ Ts = types at h ok hx hkind hordT
+  have hunk : (types.filter Ty.isUnknown).length ≤ 1 := by
+    rw [← htys]
+    simp only [List.filter_append]
+    have e : ∀ {k k' : Nat} {seg : List Ty} (_ : Seg k k' seg), k ≠ 5 → k' ≠ 5 →
+        seg.filter Ty.isUnknown = [] := by
+      intro k k' seg hseg _ _
+      apply filter_nil_of_kind; intro t ht; rw [isUnknown_kind]
+      have := hseg.kind t ht; simp; omega
+    rw [e hj (by omega) (by omega), e hl (by omega) (by omega), e hd (by omega) (by omega),
+      e hs (by omega) (by omega)]
+    simpa using hO.oneUnknown
+  match types, h with
+  | [], h => simp [finishOpt] at h
+  | [t], h =>
+    simp only [finishOpt, pure, Except.pure, Except.ok.injEq] at h
+    subst h
+    refine ⟨hx _ (by simp), ?_⟩
+    cases hh : t.isOptNull with
+    | false => rfl
+    | true => exact absurd (isOptNull_kind t hh) (hkind t (by simp))
+  | a :: b :: rest, h =>
+    rw [finishOpt_ge2 _ _ (by simp)] at h
+    simp only [Except.ok.injEq] at h
+    have hsub1 := dropUnknown_sublist (a :: b :: rest)
+    have hsub2 : ((dropUnknown (a :: b :: rest)).filter (fun t => !t.isNull)).Sublist (a :: b :: rest) :=
+      (List.filter_sublist).trans hsub1
+    have ok' := ok.sublist hsub2
+    have hnu : ∀ t ∈ (dropUnknown (a :: b :: rest)).filter (fun t => !t.isNull),
+        t.isNull = false ∧ t.isUnknown = false := by
+      intro t ht
+      rw [List.mem_filter] at ht
+      exact ⟨by simpa using ht.2, dropUnknown_none _ hunk t ht.1⟩
+    have hord := hordT.sublist (hsub2.filter (fun t => !t.isLit))
+    obtain ⟨h1, h2⟩ := union_nfx ok' hnu (fun t ht => hx t (hsub2.subset ht)) hord
+    obtain ⟨_, h3⟩ := union_nf ok' hnu
+    subst h
+    split
+    · exact ⟨by simpa [nfx] using h1, isOptNull_opt _ h2⟩
+    · refine ⟨h1, ?_⟩
+      cases hh : (collapse (mkUnionMembers cfg.lit
+          ((dropUnknown (a :: b :: rest)).filter (fun t => !t.isNull)))).isOptNull with
+      | false => rfl
+      | true =>
+        have := isOptNull_kind _ hh
+        rw [isOpt_kind] at h3
+        simp [this] at h3
 
 end J2M.C08P
